@@ -361,6 +361,74 @@ theorem crashInClose_ok (M : Mem) (st : PState) (p : CrashPoint) (hI : PInv st) 
             exact hd
         · simp [he] at hc
 
+theorem crashInOpen_ok (M : Mem) (st : PState) (p : CrashPoint) (hI : PInv st) (hR : Rel M st) :
+    (stepFails M (step10 st (.crashInOpen p)).2).1 = none ∧ PInv (step10 st (.crashInOpen p)).1 ∧
+    Rel (stepFails M (step10 st (.crashInOpen p)).2).2 (step10 st (.crashInOpen p)).1 := by
+  simp only [step10]
+  cases hc : crashInOpen st p with
+  | none => exact restart_ok M st .kill st _ hI hR hI.ndIdx rfl (crash_seq st hI)
+  | some stc =>
+    simp only
+    unfold crashInOpen at hc
+    simp only at hc
+    have hd := hI.disk
+    by_cases hr : (st.log.getD []).isEmpty = true
+    · simp only [hr, if_true] at hc
+      have hnil : st.log.getD [] = [] := List.isEmpty_iff.1 hr
+      cases p with
+      | tmpWritten => simp at hc
+      | renamed => simp at hc
+      | idxRemoved =>
+        simp only at hc
+        by_cases he : (replay (st.idx.getD []) (st.log.getD []).flatten).isEmpty = true
+        · simp only [he, if_true, Option.some.injEq] at hc
+          subst hc
+          apply restart_ok M st _ _ _ hI hR
+          · exact List.nodup_nil
+          · rfl
+          · show SEq (replay [] (cutLog [] _).flatten) st.mem
+            rw [cutLog_nil]
+            have h0 := List.isEmpty_iff.1 he
+            rw [h0] at hd
+            exact hd
+        · simp [he] at hc
+    · simp only [hr, Bool.false_eq_true, if_false] at hc
+      cases p with
+      | tmpWritten =>
+        simp only at hc
+        by_cases he : (replay (st.idx.getD []) (st.log.getD []).flatten).isEmpty = true
+        · simp [he] at hc
+        · simp only [he, Bool.false_eq_true, if_false, Option.some.injEq] at hc
+          subst hc
+          exact restart_ok M st _ st _ hI hR hI.ndIdx rfl (crash_seq st hI)
+      | renamed =>
+        simp only at hc
+        by_cases he : (replay (st.idx.getD []) (st.log.getD []).flatten).isEmpty = true
+        · simp [he] at hc
+        · simp only [he, Bool.false_eq_true, if_false, Option.some.injEq] at hc
+          subst hc
+          apply restart_ok M st _ _ _ hI hR
+          · exact nd_replay _ _ hI.ndIdx
+          · rfl
+          · show SEq (replay (replay (st.idx.getD []) (st.log.getD []).flatten)
+                (cutLog (st.log.getD []) (logLen (st.log.getD []))).flatten) st.mem
+            rw [cutLog_full _ _ (Nat.le_refl _)]
+            exact SEq.trans (replay_idem _ _) hd
+      | idxRemoved =>
+        simp only at hc
+        by_cases he : (replay (st.idx.getD []) (st.log.getD []).flatten).isEmpty = true
+        · simp only [he, if_true, Option.some.injEq] at hc
+          subst hc
+          apply restart_ok M st _ _ _ hI hR
+          · exact List.nodup_nil
+          · rfl
+          · show SEq (replay [] (cutLog (st.log.getD []) (logLen (st.log.getD []))).flatten) st.mem
+            rw [cutLog_full _ _ (Nat.le_refl _)]
+            have h0 := List.isEmpty_iff.1 he
+            have h1 : SEq (replay (st.idx.getD []) (st.log.getD []).flatten) [] := by rw [h0]; exact SEq.refl _
+            exact SEq.trans (replay_nil_of_empty _ _ h1) (by rw [h0] at hd; exact hd)
+        · simp [he] at hc
+
 /-! ### crashes inside the append to fields.idxl -/
 
 /-- restart after a write that crashed inside its append: the files reconstruct a
@@ -653,6 +721,7 @@ theorem step_ok (M : Mem) (st : PState) (op : Op10) (hI : PInv st) (hR : Rel M s
   | writeTorn j b => exact writeTorn_ok M st j b hI hR
   | dropTorn j m => exact dropTorn_ok M st j m hI hR
   | crashInClose p => exact crashInClose_ok M st p hI hR
+  | crashInOpen p => exact crashInOpen_ok M st p hI hR
   | race a b => exact race_ok M st a b hI hR
   | look => exact ⟨(look_ok M st hI hR).1, hI, (look_ok M st hI hR).2⟩
 
